@@ -29,9 +29,10 @@ for d in sorted(glob.glob(S+'/*/')):
         meta['detected_by_quick']=fired[-1].split() if fired else []
         meta['detection_lines']=[l[:300] for l in txt.splitlines() if ' rc=1 ' in l or ' rc=2 ' in l]
     d2='/tmp/detect2-%s.log'%name
-    d3='/tmp/detect3-%s.log'%name
-    if os.path.exists(d3) and 'FIRED: C' in open(d3).read():
-        d2=d3
+    for tag in ('detect3','detect4','detect5'):
+        dn='/tmp/%s-%s.log'%(tag,name)
+        if os.path.exists(dn) and 'FIRED: C' in open(dn).read():
+            d2=dn
     if os.path.exists(d2):
         txt=open(d2).read()
         fired=re.findall(r'^FIRED:(.*)$',txt,re.M)
